@@ -268,9 +268,58 @@ class CsvBookOp(Op):
         return cases
 
 
+class MdBookOp(Op):
+    """md_to_dict's sheet/header/row processing (over the structure of B.md_structure) against Model/MdBook.v"""
+    name = "B.md_book"
+    imports = ["PX.Model.Warnings", "PX.Model.Md", "PX.Model.CsvBook", "PX.Model.MdBook"]
+    fn = "fun text => show_book (md_book (md_structure text))"
+    in_ty = "list N"
+    n_quick, n_thorough = 400, 4000
+
+    def generate(self, rng, n):
+        from pyxform.xls2json_backends import md_to_dict
+        from pyxform.errors import PyXFormError, PyXFormReadError
+
+        def show(d):
+            out = ""
+            for k, v in d.items():
+                out += k + "\x02"
+                if k == "sheet_names":
+                    out += "N" + "\x01".join(v)
+                elif k.endswith("_header"):
+                    out += "H" + ("\x01".join(v[0].keys()) if v else "")
+                else:
+                    out += "R" + "".join("".join(f"{'' if a is None else a}={b}\x01" for a, b in r.items()) + "\x03" for r in v)
+                out += "\x04"
+            return out
+
+        def line():
+            k = rng.random()
+            if k < 0.3:
+                return "| " + rng.choice(["survey", "choices", "settings", "Survey", "notes", "x y", "external_choices", "SURVEY", "Sheet1"]) + " |"
+            cells = [rng.choice(["type", "name", "label", "text", "q1", "A b", "", " ", "", "A  b", "name", "x", "1"]) for _ in range(rng.randint(0, 6))]
+            return "| | " + " | ".join(cells) + " |"
+        cases = []
+        tries = 0
+        while len(cases) < n and tries < 10 * n:
+            tries += 1
+            text = "\n".join(line() for _ in range(rng.randint(1, 9))) + "\n"
+            try:
+                d = md_to_dict(text)
+                expected, cls = show(d), f"{min(len(d['sheet_names']), 3)} sheets"
+            except PyXFormReadError:
+                continue
+            except PyXFormError as e:
+                if not str(e).startswith("Duplicate column header: "):
+                    raise
+                expected, cls = "E" + str(e)[len("Duplicate column header: "):], "duplicate header"
+            cases.append({"coq": cstr(text), "expected": expected, "desc": {"md": text}, "class": cls, "nontrivial": "R" in expected or expected.startswith("E")})
+        return cases
+
+
 def ops(tier):
     check_space_table()
-    return [HeadersOp(), RowsOp(), CellOp(), MdOp(), CsvBookOp()]
+    return [HeadersOp(), RowsOp(), CellOp(), MdOp(), CsvBookOp(), MdBookOp()]
 
 
 # ---- direct oracle: the same workbook through every container and channel ----------------------------
